@@ -98,6 +98,7 @@ INDEX_OUTPUTS = [("sample_khatri_rao", ("result[1]", "result[2]"))]
 
 
 class DtOb(GOb):
+    backend_label = "dtype-tags (numpy as promotion oracle, all paths)"
     """the soundness monitor of a dtype obligation compares the dtype tags of the symbolic run with the dtypes numpy produces natively"""
 
     def _monitor_at(self, path, env):
